@@ -57,6 +57,13 @@ def compare_expressions(ctx, before, after, fresh, assignments, sides=None):
             if vb == va:
                 compared += 1
                 continue
+            if isinstance(vb, tuple) or isinstance(va, tuple):
+                # a side that is itself an equation (chains): flatten and compare side by side, exactly
+                fb, fa = sides_of(vb), sides_of(va)
+                if len(fb) == len(fa) and all(close_enough(x, y) for x, y in zip(fb, fa)):
+                    compared += 1
+                    continue
+                return "mismatch", {"assignment": G.show_assignment(a), "before": _show(vb), "after": _show(va), "allowed_difference": 0.0, "side": sb}
             if sb is None:
                 tol, skip = _tol_value(after, a, fresh, ra, rb)
             else:
@@ -90,6 +97,10 @@ def compare_expressions(ctx, before, after, fresh, assignments, sides=None):
     return "ok", {"compared": compared}
 
 
+def close_enough(x, y):
+    return x == y or abs(x - y) <= max(abs(x), abs(y)) / 10**12
+
+
 def _show(v):
     if isinstance(v, tuple):
         return [_show(v[1]), _show(v[2])]
@@ -99,12 +110,27 @@ def _show(v):
 
 
 # ------------------------------------------------------------------ equations
+def sides_of(value):
+    """Flat list of the side values of an equation value; chains a = b = c give three sides."""
+    if isinstance(value, tuple):
+        return sides_of(value[1]) + sides_of(value[2])
+    return [value]
+
+
+def scalar_residual(value):
+    """L - R for a two-sided equation; for a chain the sum of |adjacent differences| (zero iff the chain holds)."""
+    s = sides_of(value)
+    if len(s) == 2:
+        return s[0] - s[1]
+    return sum((abs(x - y) for x, y in zip(s, s[1:])), Fraction(0))
+
+
 def residual(root, a):
-    """(L - R, Result) at assignment a, or (None, None) when undefined / inexact."""
+    """(residual, Result) at assignment a, or (None, None) when undefined / inexact."""
     r = X.try_eval(root, a)
     if r is None or not r.is_eq:
         return None, r
-    return r.value[1] - r.value[2], r
+    return scalar_residual(r.value), r
 
 
 def affine_solutions(root, varnames, bases):
@@ -199,7 +225,7 @@ def compare_equations(ctx, before, after, fresh, assignments, planted=None):
             continue
         if origin.startswith("solved-after"):
             # a is a solution of the rewritten equation (exactly); is it one of the original?
-            scale = abs(rb.value[1]) + abs(rb.value[2])
+            scale = sum((abs(v) for v in sides_of(rb.value)), Fraction(0))
             # rounding of folded constants moves the rewritten equation's root slightly: the
             # original's residual there must then be small compared with its operands
             if b != 0 and (tol == 0 and not fresh or abs(b) > Fraction(1, 10**6) * max(scale, 1)):
